@@ -1389,6 +1389,17 @@ theorem docDelete_inv {s : St} (hi : Inv s) (r : Id) : Inv (docDelete (Flags.goo
 
 
 
+theorem docSetNodes_inv {s : St} (hi : Inv s) (ks : List Id) (hks : ∀ k ∈ ks, k ∈ s.roots) :
+    Inv (docSetNodes (Flags.goodWith b1 b2 b3) ks s) := by
+  unfold docSetNodes
+  simp only [Flags.goodWith, Flags.good, if_true]
+  apply bump_inv
+  obtain ⟨wf, co⟩ := hi
+  refine ⟨⟨?_, wf.kids, wf.kNC, wf.kH, wf.kW, wf.kF, wf.kS⟩, ⟨co.nc, ?_, ?_, co.hus, co.wif⟩⟩
+  · intro x hx; exact wf.roots x (hks x hx)
+  · intro l hl; simp at hl
+  · intro p; exact lookup_buildIdx _ p
+
 /-! ## the composed edits: each keeps the invariant and extends the document (`Frame`) -/
 
 theorem Frame.trans {a b c : Abs} (h1 : Frame a b) (h2 : Frame b c) : Frame a c :=
@@ -1742,6 +1753,9 @@ theorem exec_inv {s : St} (hi : Inv s) (op : Op) (hok : op.ok (abs s) = true) :
       rw [hl1]; exact Nat.lt_succ_of_lt (isIndi_lt hi.1 hw))
     exact g3.1
   | docDelete r => exact docDelete_inv hi r
+  | docSetNodes ks =>
+    simp only [Op.ok, List.all_eq_true] at hok
+    exact docSetNodes_inv hi ks fun k hk => by simpa using hok k hk
   | setHusband f i =>
     simp only [Op.ok, Bool.and_eq_true] at hok
     refine (setOrClear_good hi true i (isFam_iff.mp hok.1) fun x hx => ?_).1
